@@ -147,3 +147,55 @@ Definition msg_of (e : Elem) : Msg := match e with EObj m => m | _ => zero_msg e
 Definition needs_reply (e : Elem) : bool :=
   let m := msg_of e in negb (is_notification m) && negb (is_response m).
 Definition reply_id (e : Elem) : Z := id_tok (msg_of e).
+
+(* ---- the size gate in front of the decoder: http.go validateRequest (the declared Content-Length against
+   maxRequestContentLength) + newHTTPServerConn (io.LimitReader(r.Body, maxRequestContentLength) in front of the JSON
+   decoder), websocket.go newWebsocketCodec (conn.SetReadLimit(wsMessageSizeLimit): the declared lengths of the frames of
+   one message are added up and the frame that takes the sum over the limit is refused when its header is read).
+   A request is abstracted to `need` = the number of bytes up to the end of its first JSON value (what a reader has
+   to consume to decode it), the `n` bytes that are really sent, and the framing. The bounds are written down here (and
+   in the harness), not read from the code: a bound that moves is a finding. *)
+Definition http_body_limit : Z := 5242880.     (* 5 MiB *)
+Definition ws_message_limit : Z := 15728640.   (* 15 MiB *)
+
+(* http: a Content-Length d (net/http hands exactly min d n bytes to the handler), or no declared length (chunked
+   transfer encoding, which also overrides a Content-Length sent beside it) *)
+Inductive Framing := FDeclared (d : Z) | FUndeclared.
+(* refused on the declared length (413 / close, nothing is read) | no complete document within what is read ("parse
+   error" or silence, nothing runs) | the document is decoded and handed to the handler (a valid call runs) *)
+Inductive Gate := GRefused | GNoDocument | GDecoded.
+
+(* body_limited = the LimitReader is in place *)
+Definition http_gate_gen (body_limited : bool) (limit need n : Z) (f : Framing) : Gate :=
+  match f with
+  | FDeclared d =>
+    if limit <? d then GRefused
+    else let avail := Z.min d n in
+         let avail := if body_limited then Z.min avail limit else avail in
+         if need <=? avail then GDecoded else GNoDocument
+  | FUndeclared =>
+    let avail := if body_limited then Z.min n limit else n in
+    if need <=? avail then GDecoded else GNoDocument
+  end.
+Definition http_gate := http_gate_gen true.
+(* the same without the reader in front of the decoder: only the declared length is looked at *)
+Definition http_gate_unlimited_body := http_gate_gen false.
+
+(* websocket: the frames of one message in order (declared payload lengths; the harness sends what it declares) *)
+Fixpoint ws_gate_from (limit need cum : Z) (frames : list Z) : Gate :=
+  match frames with
+  | [] => GNoDocument
+  | f :: r =>
+    if limit <? cum + f then GRefused
+    else if need <=? cum + f then GDecoded
+    else ws_gate_from limit need (cum + f) r
+  end.
+Definition ws_gate (limit need : Z) (frames : list Z) : Gate := ws_gate_from limit need 0 frames.
+
+Inductive GateIn := GHttp (need n : Z) (f : Framing) | GWs (need : Z) (frames : list Z).
+Definition gate_class (g : Gate) : Z := match g with GRefused => 0 | GNoDocument => 1 | GDecoded => 2 end.
+Definition size_gate (i : GateIn) : Gate :=
+  match i with
+  | GHttp need n f => http_gate http_body_limit need n f
+  | GWs need frames => ws_gate ws_message_limit need frames
+  end.
